@@ -301,7 +301,7 @@ COLO_STYLE = {'BLAC': 'black', 'RED ': 'red', 'BLUE': 'blue', 'GREE': 'green', '
 XML_LINE_STYLE = {None: None, 'LG_SOLID_LINE': None, 'LG_DOT_LINE': '2,2', 'LG_DASH_LINE': '4,4', 'LG_LONG_DASH_LINE': '6,2'}
 MODE_BACKUP = {'SHIF': 'ONCE', 'GRAD': 'NONE', 'NB  ': 'NONE', 'WRAP': 'ALL', 'X10 ': 'ALL', None: 'ALL'}
 ABSENT = None
-SHAPES = ['const', 'ramp', 'edges', 'spike', 'neg0', 'absent', 'wrapabs', 'tiny', 'allabs']
+SHAPES = ['const', 'ramp', 'edges', 'spike', 'neg0', 'absent', 'wrapabs', 'tiny', 'allabs', 'negfirst', 'absneg']
 
 
 def trac_span(trac, four):
@@ -359,6 +359,12 @@ def shape_values(shape, lo, hi, log, n):
     if shape == 'neg0':
         seq = [mid, 0.0, -abs(mid) - 1.0, mid, -1e30, 0.0, at(0.25), -1e-30, at(0.75), -5.0, 0.0, mid]
         return [seq[(i + (1 if n == 1 else 0)) % len(seq)] for i in range(n)]
+    if shape == 'negfirst':      # the first values are zero / negative (no position on a log scale), positive ones follow
+        seq = [0.0, -abs(mid) - 1.0, 0.0, mid, at(0.25), at(0.75), -5.0, mid, at(0.4), 0.0, mid, at(0.6)]
+        return [seq[i % len(seq)] for i in range(n)]
+    if shape == 'absneg':        # absent, then negative, then positive
+        seq = [ABSENT, -5.0, mid, at(0.3), ABSENT, -1e30, at(0.6), mid, 0.0, at(0.2), ABSENT, mid]
+        return [seq[i % len(seq)] for i in range(n)]
     if shape == 'absent':
         out = [at(0.2 + 0.6 * frac(i)) for i in range(n)]
         for i in (0, 4, 5, n - 1):
